@@ -17,6 +17,10 @@ import (
 type C12Scenario struct {
 	Files []*gen.JFile `json:"files"`
 	Procs []C07Proc    `json:"procs"` // passes: api (judged), ident/full/bs (predecessor noise)
+	// CliHistory: the CLI route in ONE working directory whose coca_reporter/ persists: for each
+	// step a sub-project (file subset) is analysed (`coca analysis -p`) and scanned (`coca api -p -f`),
+	// every command in its own process; reports left by earlier steps must not leak into later ones
+	CliHistory [][]int `json:"cli_history,omitempty"`
 }
 
 type C12 struct{}
@@ -43,6 +47,22 @@ func (C12) Generate(t *tape.Tape, tier string) interface{} {
 	p := gen.GenProject(t, o)
 	sc := &C12Scenario{Files: p.Files}
 	sc.Procs = genHistory(t, len(p.Files), thorough, []string{"api", "api", "api", "api", "ident", "full", "bs"})
+	if t.Bool(1, 2) {
+		steps := t.Int(2, 3)
+		for k := 0; k < steps; k++ {
+			var sub []int
+			for _, fi := range t.Perm(len(p.Files)) {
+				if len(p.Files) > 1 && t.Bool(1, 3) {
+					continue
+				}
+				sub = append(sub, fi)
+			}
+			if len(sub) == 0 {
+				sub = []int{0}
+			}
+			sc.CliHistory = append(sc.CliHistory, sub)
+		}
+	}
 	return sc
 }
 
@@ -163,7 +183,7 @@ func (C12) Run(ctx *sim.RunCtx, data json.RawMessage) (*sim.Outcome, error) {
 			}
 			switch op.Pass {
 			case "api":
-				proc.Ops = append(proc.Ops, sim.Op{Op: "api", Args: map[string]interface{}{"dir": dir, "deps": depsFile, "ident": identFile}})
+				proc.Ops = append(proc.Ops, sim.Op{Op: "api", Args: map[string]interface{}{"dir": r.argForm(dir, op.ArgForm), "deps": depsFile, "ident": identFile}})
 			case "ident":
 				proc.Ops = append(proc.Ops, sim.Op{Op: "ident", Args: map[string]interface{}{"files": paths}})
 			case "full":
@@ -265,6 +285,81 @@ func (C12) Run(ctx *sim.RunCtx, data json.RawMessage) (*sim.Outcome, error) {
 					names = append(names, sc.Files[fi].ID+":"+sc.Files[fi].Name)
 				}
 				add(class, fmt.Sprintf("%s over files %v:\n unexpected: %v\n missing:    %v", where, names, extra, missing), map[string]string{"clause": class})
+			}
+		}
+	}
+	// ---- the CLI route with durable reports ----
+	if len(sc.CliHistory) > 0 {
+		cwd := filepath.Join(ctx.Dir, "cli")
+		os.MkdirAll(cwd, 0755)
+		for k, sub := range sc.CliHistory {
+			src := fmt.Sprintf("src%d", k)
+			var want []string
+			var wantRows []string
+			for pos, fi := range sub {
+				if fi >= n {
+					continue
+				}
+				f := sc.Files[fi]
+				p := filepath.Join(cwd, src, fmt.Sprintf("%02d", pos), filepath.FromSlash(f.Path))
+				os.MkdirAll(filepath.Dir(p), 0755)
+				os.WriteFile(p, []byte(f.Text), 0644)
+				for _, a := range f.Apis {
+					want = append(want, apiKey(a.Verb, a.Uri, a.Body, a.Pkg, a.Class, a.Method))
+					wantRows = append(wantRows, fmt.Sprintf("%s %s %s.%s.%s", a.Verb, a.Uri, a.Pkg, a.Class, a.Method))
+				}
+			}
+			hist = append(hist, fmt.Sprintf("cli%d", len(sub)))
+			out.Faults["durable-reports-carried-over"]++
+			ended := ""
+			for _, args := range [][]string{{"analysis", "-p", src}, {"api", "-p", src, "-f", "-c"}} {
+				res, err := ctx.Run(&sim.Proc{Schedule: sim.Canonical(), Cwd: cwd, Ops: []sim.Op{{Op: "cli", Args: map[string]interface{}{"args": args}}}})
+				if err != nil {
+					return nil, err
+				}
+				out.Faults["restart"]++
+				if !res.Completed(0) || !res.Records[0].OK {
+					ended = args[0]
+					break
+				}
+			}
+			if ended != "" {
+				// `coca api` calls log.Fatal when deps.json is missing; not this property's subject
+				out.Probes["cli-step-ended:"+ended]++
+				continue
+			}
+			where := fmt.Sprintf("CLI step %d (`coca analysis -p %s; coca api -p %s -f -c` in a directory holding the reports of %d earlier steps)", k, src, src, k)
+			var got []struct {
+				Uri, HttpMethod, MethodName, RequestBodyClass, PackageName, ClassName string
+			}
+			if b, err := os.ReadFile(filepath.Join(cwd, "coca_reporter", "apis.json")); err == nil {
+				json.Unmarshal(b, &got)
+			}
+			var gotKeys []string
+			for _, g := range got {
+				gotKeys = append(gotKeys, apiKey(g.HttpMethod, g.Uri, g.RequestBodyClass, g.PackageName, g.ClassName, g.MethodName))
+			}
+			if extra, missing := diffMultiset(gotKeys, want); len(extra)+len(missing) > 0 {
+				add("cli/apis-json-differs", fmt.Sprintf("%s: apis.json\n unexpected: %v\n missing:    %v", where, extra, missing), map[string]string{"clause": "cli/apis-json-differs"})
+			}
+			// api.csv rows: Size, Method, URI, Caller
+			var gotRows []string
+			if b, err := os.ReadFile(filepath.Join(cwd, "coca_reporter", "api.csv")); err == nil {
+				for i, line := range strings.Split(strings.TrimSpace(string(b)), "\n") {
+					if i == 0 || strings.TrimSpace(line) == "" {
+						continue
+					}
+					cols := strings.Split(line, ",")
+					if len(cols) >= 4 {
+						gotRows = append(gotRows, fmt.Sprintf("%s %s %s", strings.TrimSpace(cols[1]), strings.TrimSpace(cols[2]), strings.TrimSpace(cols[3])))
+					}
+				}
+			}
+			if extra, missing := diffMultiset(gotRows, wantRows); len(extra)+len(missing) > 0 {
+				add("cli/api-csv-differs", fmt.Sprintf("%s: api.csv rows (verb, URI, caller)\n unexpected: %v\n missing:    %v", where, extra, missing), map[string]string{"clause": "cli/api-csv-differs"})
+			}
+			if len(want) > 0 {
+				out.Probes["cli-scan-with-handlers"]++
 			}
 		}
 	}
